@@ -98,10 +98,8 @@ FamStream == [Base EXCEPT
   !.streams = <<"s1", "s2", "s3">>, !.peers = {"p1", "p2"}, !.protos = {"a"}, !.svcs = {"x"},
   !.lim = ("sys" :> LR(INF, 9, 9, 2, 9, 9, 9, 9)) @@ ("trans" :> LR(INF, 9, 9, 1, 9, 9, 9, 9)) @@
           ("peer:p1" :> LR(INF, 1, 9, 2, 9, 9, 9, 9)) @@ ("peer:p2" :> LR(INF, 9, 9, 2, 9, 9, 9, 9)) @@
-          ("proto:a" :> LR(INF, 9, 1, 2, 9, 9, 9, 9)) @@ ("proto:a.peer:p1" :> LR(INF, 9, 9, 1, 9, 9, 9, 9)) @@
-          ("proto:a.peer:p2" :> LR(INF, 9, 9, 2, 9, 9, 9, 9)) @@
-          ("svc:x" :> LR(INF, 9, 9, 2, 9, 9, 9, 9)) @@ ("svc:x.peer:p1" :> LR(INF, 9, 9, 1, 9, 9, 9, 9)) @@
-          ("svc:x.peer:p2" :> LR(INF, 9, 9, 1, 9, 9, 9, 9)) @@
+          ("proto:a" :> LR(INF, 9, 1, 2, 9, 9, 9, 9)) @@ ("proto:a.peer" :> LR(INF, 9, 9, 1, 9, 9, 9, 9)) @@
+          ("svc:x" :> LR(INF, 9, 9, 2, 9, 9, 9, 9)) @@ ("svc:x.peer" :> LR(INF, 9, 9, 1, 9, 9, 9, 9)) @@
           ("conn" :> Open) @@ ("stream" :> LR(INF, 1, 1, 1, 9, 9, 9, 9)),
   !.dirs = {"in", "out"},
   !.kinds = {"openstream", "setprotocol", "setservice", "done", "gc"}]
@@ -110,8 +108,8 @@ FamStreamMem == [Base EXCEPT
   !.streams = <<"s1", "s2">>, !.peers = {"p1"}, !.protos = {"a"}, !.svcs = {"x"},
   !.lim = ("sys" :> LR(3, 9, 9, 9, 9, 9, 9, 9)) @@ ("trans" :> LR(2, 9, 9, 9, 9, 9, 9, 9)) @@
           ("peer:p1" :> LR(2, 9, 9, 9, 9, 9, 9, 9)) @@ ("proto:a" :> LR(2, 9, 9, 9, 9, 9, 9, 9)) @@
-          ("proto:a.peer:p1" :> LR(1, 9, 9, 9, 9, 9, 9, 9)) @@ ("svc:x" :> LR(1, 9, 9, 9, 9, 9, 9, 9)) @@
-          ("svc:x.peer:p1" :> LR(1, 9, 9, 9, 9, 9, 9, 9)) @@ ("conn" :> Open) @@ ("stream" :> LR(2, 9, 9, 9, 9, 9, 9, 9)),
+          ("proto:a.peer" :> LR(1, 9, 9, 9, 9, 9, 9, 9)) @@ ("svc:x" :> LR(1, 9, 9, 9, 9, 9, 9, 9)) @@
+          ("svc:x.peer" :> LR(1, 9, 9, 9, 9, 9, 9, 9)) @@ ("conn" :> Open) @@ ("stream" :> LR(2, 9, 9, 9, 9, 9, 9, 9)),
   !.kinds = {"openstream", "setprotocol", "setservice", "reserve", "release", "done", "gc"}]
 
 \* ---- the three suspected defects (DESIGN 9.4, 9.5, 9.6): expected-violation instances ------------
@@ -146,7 +144,16 @@ FamCStream == [FamStream EXCEPT
   !.lim = [FamStream.lim EXCEPT !["peer:p1"] = LR(INF, 9, 9, 2, 9, 9, 9, 9)],
   !.threads = <<"t1", "t2">>]
 
-Cfg == CASE Fam = "mem" -> FamMem [] Fam = "memp" -> FamMemP [] Fam = "span" -> FamSpan
+\* smaller relatives for the quick tier
+FamConnQ == [FamConn EXCEPT !.conns = <<"c1", "c2">>]
+FamStreamQ == [FamStream EXCEPT !.dirs = {"in"}]
+FamSpanQ == [FamSpan EXCEPT !.spans = <<"sp1", "sp2">>]
+FamSubnetQ == [FamSubnet EXCEPT !.eps = {"a1", "a2", "v6", "n0"}]
+FamCMemQ == [FamCMem EXCEPT !.sizes = {1}]
+
+Cfg == CASE Fam = "connq" -> FamConnQ [] Fam = "streamq" -> FamStreamQ [] Fam = "spanq" -> FamSpanQ
+         [] Fam = "subnetq" -> FamSubnetQ [] Fam = "cmemq" -> FamCMemQ
+         [] Fam = "mem" -> FamMem [] Fam = "memp" -> FamMemP [] Fam = "span" -> FamSpan
          [] Fam = "conn" -> FamConn [] Fam = "subnet" -> FamSubnet [] Fam = "allow" -> FamAllow [] Fam = "connmem" -> FamConnMem
          [] Fam = "stream" -> FamStream [] Fam = "streammem" -> FamStreamMem
          [] Fam = "gcmem" -> FamGcMem [] Fam = "alsub" -> FamAlSub [] Fam = "xfer" -> FamXfer
@@ -160,22 +167,30 @@ MCSizes == Cfg.sizes      MCPrios == Cfg.prios        MCDirs == Cfg.dirs
 MCFds == Cfg.fds          MCViews == Cfg.views        MCKinds == Cfg.kinds
 MCThreads == Cfg.threads  MCFaithfulGC == Cfg.faithfulgc  MCPreload == Cfg.preload
 MCSequential == Len(Cfg.threads) = 1
-\* every named scope of the instance has a limit: the family's own entry or the default
-MCNamed == {"sys", "trans", "asys", "atrans"} \cup {"peer:" \o p : p \in Cfg.peers} \cup {"proto:" \o x : x \in Cfg.protos}
-           \cup {"svc:" \o x : x \in Cfg.svcs} \cup {"proto:" \o x \o ".peer:" \o p : x \in Cfg.protos, p \in Cfg.peers}
-           \cup {"svc:" \o x \o ".peer:" \o p : x \in Cfg.svcs, p \in Cfg.peers}
-MCLim == [x \in MCNamed \cup {"conn", "stream"} |-> IF x \in DOMAIN Cfg.lim THEN Cfg.lim[x] ELSE Cfg.deflim]
+\* every named scope of the instance has a limit: the family's own entry or the default; the per-peer
+\* sub-scopes of a protocol / service share one limit ("proto:a.peer"), as in the Limiter interface
+LOf(k) == IF k \in DOMAIN Cfg.lim THEN Cfg.lim[k] ELSE Cfg.deflim
+MCTop == {"sys", "trans", "asys", "atrans", "conn", "stream"} \cup {"peer:" \o p : p \in Cfg.peers}
+         \cup {"proto:" \o x : x \in Cfg.protos} \cup {"svc:" \o x : x \in Cfg.svcs}
+PPairs == Cfg.protos \X Cfg.peers
+SPairs == Cfg.svcs \X Cfg.peers
+MCLim == [x \in MCTop |-> LOf(x)]
+         @@ [x \in {"proto:" \o q[1] \o ".peer:" \o q[2] : q \in PPairs} |->
+               LOf("proto:" \o (CHOOSE q \in PPairs : x = "proto:" \o q[1] \o ".peer:" \o q[2])[1] \o ".peer")]
+         @@ [x \in {"svc:" \o q[1] \o ".peer:" \o q[2] : q \in SPairs} |->
+               LOf("svc:" \o (CHOOSE q \in SPairs : x = "svc:" \o q[1] \o ".peer:" \o q[2])[1] \o ".peer")]
 
 \* compact JSON projection: usage vectors as tuples, only the non-zero ones; objects that exist
 Tup(u) == <<u.mem, u.si, u.so, u.ci, u.co, u.fd>>
 St == [use  |-> [x \in {y \in All : w.use[y] # Z} |-> Tup(w.use[x])],
        obj  |-> [o \in {y \in ObjIds : w.obj[y].st # "none"} |->
-                    <<w.obj[o].st, w.obj[o].al, w.obj[o].peer, w.obj[o].proto, w.obj[o].svc, w.obj[o].edges, w.obj[o].owner>>],
+                    <<w.obj[o].st, w.obj[o].al, w.obj[o].peer, w.obj[o].proto, w.obj[o].svc, w.obj[o].edges, w.obj[o].owner,
+                      w.obj[o].dir, w.obj[o].fd, w.obj[o].ep, w.obj[o].ipv>>],
        cnt  |-> [b \in {y \in DOMAIN Cap : w.cnt[y] # 0} |-> w.cnt[b]],
        ref  |-> [s \in {y \in GCable : w.ref[y] # 0} |-> w.ref[s]],
        held |-> [x \in {y \in All : w.held[y] # 0} |-> w.held[x]]]
 EmitEdge == PrintT(<<"VFEDGE", ToJson([s |-> St, op |-> op', t |-> St'])>>)
-Conf == [fam |-> Fam, inf |-> INF, lim |-> [x \in DOMAIN MCLim |-> MCLim[x]], conns |-> Cfg.conns, streams |-> Cfg.streams,
+Conf == [fam |-> Fam, inf |-> INF, lim |-> Cfg.lim, deflim |-> Cfg.deflim, conns |-> Cfg.conns, streams |-> Cfg.streams,
          spans |-> Cfg.spans, peers |-> Cfg.peers, protos |-> Cfg.protos, svcs |-> Cfg.svcs, eps |-> Cfg.eps,
          epb |-> Cfg.epb, cap |-> Cfg.cap, allownet |-> Cfg.allownet, allowpeer |-> Cfg.allowpeer]
 MCInit == Init /\ PrintT(<<"VFINIT", ToJson(St)>>) /\ PrintT(<<"VFCONF", ToJson(Conf)>>)
